@@ -28,6 +28,7 @@ type PeerState struct {
 	NoToken  bool
 	IntToken bool
 	EmptyTok bool // answers with a zero-length token
+	ReplyID  *[20]byte
 	ErrReply bool
 	Values   map[[20]byte][]string // compact peers to return for an infohash
 	Extra    func(method string, r benc.Dict) benc.Dict
@@ -131,7 +132,11 @@ func honestHandle(p *core.Peer, from *core.SimConn, q benc.Dict, raw []byte) [][
 	if st.ErrReply {
 		return [][]byte{ErrMsg(t, 202, "Server Error")}
 	}
-	r := benc.Dict{{K: "id", V: string(p.ID[:])}}
+	rid := p.ID
+	if st.ReplyID != nil {
+		rid = *st.ReplyID // answers under another id than the one it is listed with
+	}
+	r := benc.Dict{{K: "id", V: string(rid[:])}}
 	addNodes := func(target [20]byte) {
 		n4, n6 := st.Net.Closest(target, st.Net.K)
 		if n4 != "" {
